@@ -5,6 +5,7 @@ package node
 
 import (
 	"context"
+	"time"
 	"encoding/json"
 	"errors"
 	"os"
@@ -28,9 +29,14 @@ const vfTopic = "topic"
 
 type vfBoard struct {
 	sent []storage.Message
+	ctl  *vfCrashCtl
 }
 
 func (b *vfBoard) Send(ms ...storage.Message) error {
+	vf.Yield()
+	if b.ctl != nil {
+		defer b.ctl.effect("board send")
+	}
 	for _, m := range ms {
 		m.Offset = uint64(len(b.sent))
 		b.sent = append(b.sent, m)
@@ -64,7 +70,65 @@ type vfLog struct{}
 
 func (vfLog) Log(format string, args ...interface{}) {}
 
+// vfCrashCtl counts durable effects (state writes, board sends) and "kills the process" after the k-th one.
+type vfCrashCtl struct {
+	n     int
+	limit int // 0 = never
+	log   []string
+}
+
+type vfCrash struct{}
+
+func (c *vfCrashCtl) effect(what string) {
+	c.n++
+	c.log = append(c.log, what)
+	if c.limit > 0 && c.n == c.limit {
+		c.limit = 0
+		panic(vfCrash{})
+	}
+}
+
+// vfCrashState decorates the node's state store: every write is one durable effect.
+type vfCrashState struct {
+	state.State
+	ctl *vfCrashCtl
+}
+
+func (s *vfCrashState) Get(key string) ([]byte, error) {
+	vf.Yield()
+	return s.State.Get(key)
+}
+func (s *vfCrashState) GetOrError(key string) ([]byte, error) {
+	vf.Yield()
+	return s.State.GetOrError(key)
+}
+func (s *vfCrashState) LoadOffset() (uint64, error) {
+	vf.Yield()
+	return s.State.LoadOffset()
+}
+func (s *vfCrashState) Set(key string, value []byte) error {
+	vf.Yield()
+	err := s.State.Set(key, value)
+	s.ctl.effect("set " + key)
+	return err
+}
+func (s *vfCrashState) Delete(key string) error {
+	vf.Yield()
+	err := s.State.Delete(key)
+	s.ctl.effect("delete " + key)
+	return err
+}
+func (s *vfCrashState) SaveOffset(o uint64) error {
+	vf.Yield()
+	err := s.State.SaveOffset(o)
+	s.ctl.effect("offset")
+	return err
+}
+
 type vfNodeEnv struct {
+	ctl    *vfCrashCtl
+	base   state.State
+	cancel context.CancelFunc
 	node   *BaseNodeService
 	st     state.State
 	board  *vfBoard
@@ -81,11 +145,19 @@ func vfStatePath(tag string) string {
 
 // vfOpenNode builds the node of participant idx over the state directory path (re-opening it = restart).
 func vfOpenNode(path string, idx int, board *vfBoard) (*vfNodeEnv, error) {
-	user := state_machines.VFUser(idx)
-	st, err := state.NewLevelDBState(path, vfTopic)
+	base, err := state.NewLevelDBState(path, vfTopic)
 	if err != nil {
 		return nil, err
 	}
+	return vfStartNode(base, path, idx, board)
+}
+
+// vfStartNode constructs all services afresh over an existing state store (= process start on an existing state dir).
+func vfStartNode(base state.State, path string, idx int, board *vfBoard) (*vfNodeEnv, error) {
+	user := state_machines.VFUser(idx)
+	ctl := &vfCrashCtl{}
+	var st state.State = &vfCrashState{State: base, ctl: ctl}
+	var err error
 	pub, priv := state_machines.VFKeyPair(idx)
 	sp := &services.ServiceProvider{}
 	sp.SetState(st)
@@ -101,11 +173,12 @@ func vfOpenNode(path string, idx int, board *vfBoard) (*vfNodeEnv, error) {
 	sp.SetFSMService(fsmSvc)
 	sp.SetSignatureService(signature.NewSignatureService(sigrepo.NewSignatureRepo(st)))
 	sp.SetOperationService(opSvc)
-	n, err := NewNode(context.Background(), &config.Config{Username: user, KafkaStorageConfig: &config.KafkaStorageConfig{Topic: vfTopic}}, sp)
+	ctx, cancel := context.WithCancel(context.Background())
+	n, err := NewNode(ctx, &config.Config{Username: user, KafkaStorageConfig: &config.KafkaStorageConfig{Topic: vfTopic}}, sp)
 	if err != nil {
 		return nil, err
 	}
-	return &vfNodeEnv{node: n.(*BaseNodeService), st: st, board: board, fsm: fsmSvc, ops: opSvc, path: path, user: user, idx: idx}, nil
+	return &vfNodeEnv{ctl: ctl, base: base, cancel: cancel, node: n.(*BaseNodeService), st: st, board: board, fsm: fsmSvc, ops: opSvc, path: path, user: user, idx: idx}, nil
 }
 
 // vfSnap: byte-level snapshot of everything durable except the offset.
@@ -170,3 +243,35 @@ func vfCleanup(paths ...string) {
 }
 
 var _ = strconv.Itoa
+
+// vfPollOnce runs the real Poll loop for one tick.
+func vfPollOnce(e *vfNodeEnv) (crashed bool) {
+	defer func() {
+		if r := recover(); r != nil {
+			if _, ok := r.(vfCrash); ok {
+				crashed = true
+				return
+			}
+			panic(r)
+		}
+	}()
+	if vf.Symbolic() {
+		// the modelled ticker fires once, then the (already cancelled) context ends the loop
+		e.cancel()
+		_ = e.node.Poll()
+		return false
+	}
+	done := make(chan struct{})
+	var pv interface{}
+	go func() {
+		defer func() { pv = recover(); close(done) }()
+		_ = e.node.Poll()
+	}()
+	time.Sleep(1300 * time.Millisecond)
+	e.cancel()
+	<-done
+	if pv != nil {
+		panic(pv)
+	}
+	return false
+}
